@@ -7,7 +7,7 @@
    same or to swapped floats. *)
 From Coq Require Import ZArith NArith Reals Lia Lra Bool.
 From Flocq Require Import Core BinarySingleNaN.
-From Verif Require Import Model.Epoch Model.EpochFloat Proofs.EpochProofs.
+From Verif Require Import Base.GoNum Model.Epoch Model.EpochFloat Proofs.EpochProofs.
 Open Scope R_scope.
 
 Definition fexp64 := SpecFloat.fexp 53 1024.
